@@ -91,7 +91,8 @@ L1 = ["c01c02_l1_eat", "c01c02_l1_skip", "c01c02_l1_eat_if", "c01c02c17_l1_expec
       "c01c02_l1_assert", "c01c02c17_l1_error_and_eat", "c01c02c17_l1_error_and_recover",
       "c02c17_l1_error_real", "c01c02_l1_new", "c02c04_l1_at_set_tables"]
 HARNESSES += [
-    H(n, [p for p in ("C01", "C02", "C17", "C04") if p.lower() in n.split("_")[0]], weight=40)
+    H(n, [p for p in ("C01", "C02", "C17", "C04") if p.lower() in n.split("_")[0]], weight=40,
+      replay=None if n in ("c02c17_l1_error_real",) else "l1")
     for n in L1
 ]
 
@@ -115,6 +116,30 @@ PROP_META = {
                    "checked on one concrete text; Vec::push/String::from trusted)",
         "assumptions": ["LineIndex methods are one-line wrappers of the free functions that are verified",
                         "lsp to_proto/from_proto verified as pass-through with LineIndex methods stubbed by recorders"],
+    },
+    "C01": {
+        "bounds": "parser: every stream of <= 5 tokens of any kind, widths 1..2, arbitrary pre-state under Inv; "
+                  "lexer: ASCII text <= 6 bytes (8 thorough); preprocessor: suffix <= 5 tokens",
+        "outside": "rowan's builder/cursor (trusted), non-ASCII text at the lexer level, the manual induction "
+                   "over call histories, grammar code calling save/lex directly (would void the modular argument)",
+        "assumptions": ["rowan GreenNodeBuilder replaced by a checking ghost recorder",
+                        "SymStream yields every (kind,width) sequence the L0 contract allows"],
+    },
+    "C02": {
+        "bounds": "as C01; grammar units: see harness list",
+        "outside": "native stack depth (nesting > 256), texts >= 4 GiB, message text content",
+        "assumptions": ["Lexer::error / PreProcessor::error / ParserBase::error stubbed (message construction)"],
+    },
+    "C17": {
+        "bounds": "as C01",
+        "outside": "every range that is copied from rowan nodes by ide (needs whole programs)",
+        "assumptions": [],
+    },
+    "C15": {
+        "bounds": "one eat() with concrete first token and every suffix of <= 5 (thorough 7) tokens over "
+                  "{#ifdef,#ifndef,#else,#endif,#define,Id(M|N),;,ws}; macro set empty",
+        "outside": "non-empty macro sets (HashSet insert explodes), manual composition of steps",
+        "assumptions": ["define_macro replaced by ghost recorder", "RandomState::new fixed"],
     },
     "C14": {
         "bounds": "one lexer step on every ASCII text of <= 6 bytes (block comments/#: 8, code: 7); "
